@@ -120,7 +120,7 @@ async<void> aparent(ACtx *c, int v, bool throws) {
     catch (const vf_tag_exc &e) { c->obs = e.tag; c->obs_kind = 2; }
     c->parent_done++;
 }
-void thread_resolves() { ACtx &c = *acx; c.resolved = 1; (void)c.gate_p(c.gval); }
+void thread_resolves() { vf_other_thread other; ACtx &c = *acx; c.resolved = 1; (void)c.gate_p(c.gval); }     // (normal mode there: the child runs on that thread at once)
 }
 
 extern "C" void h_await_mt() {
